@@ -104,6 +104,9 @@ type RangeRequest struct {
 	RawEnd   string `json:"raw_end,omitempty"`
 	RawStep  string `json:"raw_step,omitempty"`
 	Aborted  bool   `json:"aborted,omitempty"` // the client went away while the request was held
+	// ServiceUs: how long the server itself took over the request, from having read it to having written the answer
+	// (0 while in progress): the test's own measure of "this response arrived within the client's timeout"
+	ServiceUs int64 `json:"service_us,omitempty"`
 }
 
 type heldReq struct {
@@ -172,6 +175,7 @@ func parseSeconds(raw string) (int64, bool) {
 
 func (s *BitmapServer) handle(w http.ResponseWriter, r *http.Request) {
 	form := ParseRequest(r)
+	began := time.Now()
 	if EndpointOfPath(r.URL.Path) != "query_range" {
 		s.problem("unexpected path %s", r.URL.Path)
 		w.WriteHeader(http.StatusNotFound)
@@ -258,6 +262,9 @@ func (s *BitmapServer) handle(w http.ResponseWriter, r *http.Request) {
 	if f, ok := w.(http.Flusher); ok {
 		f.Flush()
 	}
+	s.mu.Lock()
+	s.reqs[req.Seq].ServiceUs = max(time.Since(began).Microseconds(), 1)
+	s.mu.Unlock()
 }
 
 func (s *BitmapServer) answer(req RangeRequest) string {
